@@ -29,6 +29,7 @@ CHECKS["C11"] = dict(
     technique="table reading: rustc const-evaluated static initialisers and MIR match tables compared with a specification-derived oracle",
     text=("Static, exhaustive comparison of the WOFF2 decoder's constant tables with the W3C specification: all 128 triplet rows, "
           "63 known tags, 255UInt16 codes/offsets and UIntBase128 constants, read from the compiled program without running it. "
+          "The two flag predicates of the transformed hmtx table test the specification's bits. "
           "Decides a necessary condition of the property (a wrong row mis-decodes some conforming file); stream bookkeeping and "
           "reconstruction arithmetic are not decided."),
     design_ref="DESIGN.md section 6, C11",
@@ -40,7 +41,8 @@ CHECKS["C18"] = dict(
     text=("Static decision of necessary structural clauses of Type 2 conformance: opcode constants, the three VisitOp tables "
           "(mutual inverses, spec mnemonics), dispatch exhaustiveness incl. the escape switch and the try_into().unwrap() domain, "
           "subroutine bias step function at all breakpoints, nesting/stack limits, bounded interpreter recursion on every cycle, and "
-          "visitor implementations without catch-all arms. Path arithmetic and operand-stack depth are not decided."),
+          "visitor implementations without catch-all arms; blend takes its ItemVariationData index from the charstring's vsindex, else the "
+          "Private DICT's. Path arithmetic is not decided; operand-stack depth only through the audited indexing/arithmetic sites of C01."),
     design_ref="DESIGN.md section 6, C18",
 )
 
@@ -60,18 +62,22 @@ CHECKS["C12"] = dict(
     text=("Static decision of the clause 'a successful instance is a static font': no add_table of a variation tag (constant tags "
           "checked, dynamic tags must pass a filter that rejects is_var_table tags; the predicate itself is read and must match all "
           "seven variation tags), the CFF2 variation store is cleared before writing, the result comes from the single sfnt producer, "
-          "and the bounding-box recursion is depth-bounded. All numeric clauses of the variation model are not decided."),
+          "the bounding-box recursion is depth-bounded, and tables that declare a record size (MVAR, fvar) are read with that size as the "
+          "array stride. All numeric clauses of the variation model are not decided."),
     design_ref="DESIGN.md section 6, C12",
 )
 
 CHECKS["C01"] = dict(
     category="other",
-    technique="call-graph SCC depth-guard rule over the per-instance call graph; MIR dominance/provenance rules for every documented panic site with an audited ledger; origin classification of allocation sizes; guarded-divisor rule; loop progress witnesses",
-    text=("Static decision of five structural clauses of C01 over the whole crate: bounded recursion on every call-graph cycle, explicit panic "
-          "discipline (every unwrap/expect/panic!/assert!/unreachable!/range slice/std argument-panic site is discharged by a dominating check, "
-          "audited with a written reason, or a violation), allocation sizes bounded by the input, guarded division, loop progress. Implicit "
-          "panics (element indexing, add/mul overflow), unsigned subtraction, running time of terminating loops and decompression size are not decided."),
-    design_ref="DESIGN.md section 6, C01",
+    technique="call-graph SCC depth-guard rule over the per-instance call graph; MIR dominance/provenance rules for every documented panic site, every element-indexing site (BoundsCheck / Index with usize) and every overflow-checked integer operation (MIR Overflow asserts) with interval arithmetic over operand provenance, SSA-versioned guard matching and independently audited ledgers; origin classification of allocation sizes; guarded-divisor rule; loop progress witnesses",
+    text=("Static decision of seven structural clauses of C01 over the whole crate: bounded recursion on every call-graph cycle; explicit panic "
+          "discipline (every unwrap/expect/panic!/assert!/unreachable!/range slice/std argument-panic site); element indexing (constant or "
+          "type-bounded index, dominating i < x.len() on the same receiver and value); overflow-checked arithmetic (every subtraction, and "
+          "add/mul/neg/shift/div narrower than 64 bits: interval arithmetic, dominating comparison, non-emptiness, write-counter difference); "
+          "allocation sizes bounded by the input; guarded division; loop progress. Each site is discharged by its rule, audited with a written "
+          "reason from an independent review, or a violation; a new site in an audited function exceeds the key's count. Add/mul overflow in "
+          "64-bit types, allocation failure, running time of terminating loops and decompression size are not decided."),
+    design_ref="DESIGN.md sections 6 (C01) and 11.2",
 )
 CHECKS["C10"] = dict(
     category="other",
@@ -103,8 +109,9 @@ CHECKS["C17"] = dict(
     technique="effect analysis: may-alias propagation of the character buffer's mutable capability through every callee reachable from preprocess_text, whitelist of stable permutation primitives and documented transformations, split-predicate reading from promoted constants, dispatch exhaustiveness",
     text=("Static decision of C17 as an effect discipline: every operation that can mutate the text buffer, transitively from preprocess_text, is a "
           "stable permutation primitive (for Default/Syriac/Arabic confined to a run delimited by NotReordered characters, on a &mut [char]) or "
-          "one of the documented decompositions of its function fed by its named table or a constant; the dispatch lists every ScriptType. That "
-          "the comparator realises AMTRA and that the decomposition tables are the documented ones is not decided."),
+          "one of the documented decompositions of its function fed by its named table or a constant; the dispatch lists every ScriptType; the "
+          "modifier-combining-mark predicate is true exactly for the 14 marks of UTR #53. That the comparator realises AMTRA and that the "
+          "decomposition tables are the documented ones is not decided."),
     design_ref="DESIGN.md section 6, C17",
 )
 
@@ -121,13 +128,15 @@ CHECKS["C04"] = dict(
 
 CHECKS["C02"] = dict(
     category="other",
-    technique="RefCell typestate over the per-instance call graph (guard live ranges from MIR drops, transitive borrow summaries), call-graph SCC depth-guard rule, panic ledger and loop-progress rules on the shaping modules, MIR dominance/must-pass-through rules on Font::shape and the GSUB drivers, match-table domain agreement",
+    technique="RefCell typestate over the per-instance call graph (guard live ranges from MIR drops, transitive borrow summaries), call-graph SCC depth-guard rule, panic ledger and loop-progress rules on the shaping modules, MIR dominance/must-pass-through rules on Font::shape and the GSUB drivers, match-table domain agreement, element-indexing and overflow-arithmetic rules (as C01) restricted to the shaping modules, attachment-index provenance rule",
     text=("Static decision of the structural clauses of C02: bounded recursion, no conflicting RefCell borrow while a guard is alive (for every "
           "call sequence), explicit panic discipline and loop progress in the shaping modules, Font::shape never returns an error without the "
           "glyph run and records every fallible step, every Ok path of the GSUB drivers clamps glyph ids through replace_missing_glyphs, and "
-          "the script tag tables of the Indic shaper agree. Implicit index/arithmetic panics in the reordering machines and the value clauses "
-          "(attachments inside the run, characters of the input) are not decided."),
-    design_ref="DESIGN.md section 6, C02",
+          "the script tag tables of the Indic shaper agree, the lookup-cache sentinel exists, element indexing and overflow-checked arithmetic of "
+          "the shaping modules are discharged or independently audited (rules C02-i, C02-o), and every attachment index stored in a Placement "
+          "was bounds-checked against the glyph buffer when the placement was built (C02-f). That attributed characters belong to the input "
+          "and that glyph ids are below the glyph count are not decided."),
+    design_ref="DESIGN.md sections 6 (C02) and 11.2",
 )
 
 CHECKS["C03"] = dict(
@@ -153,11 +162,13 @@ CHECKS["C09"] = dict(
 
 CHECKS["C07"] = dict(
     category="other",
-    technique="two-point (old/new id) provenance lattice over a frozen table of source-table and output sinks in the subsetter; field-use audit of the SubsetGlyphs implementations",
+    technique="two-point (old/new id) provenance lattice over a frozen table of source-table and output sinks in the subsetter; field-use audit of the SubsetGlyphs implementations; id-space agreement between the used-subrs map and the FDSelect it is resolved through; sign dispatch of composite glyphs",
     text=("Static decision of the id-space discipline of the subsetter: every access to a source table (hmtx, glyf records, CFF/CFF2 charstrings, "
           "charset, FDSelect) is indexed by an operand whose provenance is an old id, every id stored into the output or passed to old_id is a "
-          "new id, and each SubsetGlyphs implementation answers old_id/new_id from the right map. Equality of outlines and metrics, the "
-          "numberOfHMetrics boundary arithmetic and CFF subroutine renumbering are not decided."),
+          "new id, each SubsetGlyphs implementation answers old_id/new_id from the right map, the local-subr usage map handed to "
+          "rebuild_local_subr_indices is keyed in the id space of the FDSelect it is looked up in, and composite glyphs are recognised by the "
+          "sign of numberOfContours. Equality of outlines and metrics, the numberOfHMetrics boundary arithmetic and CFF subroutine renumbering "
+          "are not decided."),
     design_ref="DESIGN.md section 6, C07",
 )
 
@@ -177,7 +188,8 @@ CHECKS["C15"] = dict(
           "reader/writer pairs and tagged arms (head, hhea, maxp 0.5/1.0, name, post header, hmtx, cvt, loca format, cmap formats 0/4/6/10/12, "
           "CFF headers/ranges/charsets/encodings/FDSelect, variation store records, glyf bounding box and glyph headers) the item sequences "
           "agree in width, field and constants; no unchecked lossy cast remains in writer code; every placeholder is filled on every Ok path; "
-          "position-derived offsets are relative. Equality of values, and data-dependent layouts beyond the compared prefix, are not decided."),
+          "position-derived offsets are relative; the CFF INDEX offSize is the specification's decision table applied to the largest "
+          "offset actually written. Equality of values, and data-dependent layouts beyond the compared prefix, are not decided."),
     design_ref="DESIGN.md section 6, C15",
 )
 
